@@ -1321,6 +1321,14 @@ private:
 
   bool doAddListener(const ListenerCfg &lc)
   {
+    // A listener requested with TLS must never fall back to accepting plaintext:
+    // without a server TLS context (serverTls disabled or defaultMode != Server)
+    // refuse the listener instead of silently serving clear text.
+    if (lc.tls == TlsMode::Server && !_sslSrv)
+    {
+      err(TransportError::Config, "TLS listener requested but server TLS is not configured");
+      return false;
+    }
     int sfd = -1;
     sockaddr_storage ss{};
     socklen_t sl = 0;
@@ -1486,6 +1494,21 @@ private:
 
   bool doConnect(const ConnectReq &cr)
   {
+    // A connection requested with TLS must never fall back to plaintext: without
+    // a client TLS context (clientTls disabled or defaultMode != Client) fail the
+    // connect instead of silently sending application data in clear.
+    if (cr.tls == TlsMode::Client && !_sslCli)
+    {
+      decltype(_cbs.onClose) closeCb;
+      { std::lock_guard<std::mutex> g(_cbMutex); closeCb = _cbs.onClose; }
+      if (closeCb)
+      {
+        closeCb(cr.sid, TransportErrorInfo{TransportError::Config,
+                                            "TLS requested but client TLS is not configured"});
+      }
+      err(TransportError::Config, "TLS connect requested but client TLS is not configured");
+      return false;
+    }
     addrinfo hints{};
     hints.ai_family = AF_UNSPEC;
     hints.ai_socktype = SOCK_STREAM;
